@@ -157,6 +157,7 @@ def check(run):
             if any(p['ran'] for p in phases3):
                 run.fail('rerun-after-cleanup', 'execute after cleanup re-ran %d tasks' % sum(len(p['ran']) for p in phases3), rpl)
             run.count('lifecycles')
+        kwargs_and_late_types_family(run, scratch)
         if drv is not None and run.corr_disagreements == 0:
             run.obligation('correspondence: %d loads with compound tasks gave the task list of the model' % run.corr_programs, True)
     finally:
@@ -165,7 +166,112 @@ def check(run):
             drv.close()
 
 
+KWJUGFILE = '''import collections, os
+from jug import TaskGenerator, CompoundTask
+_log = os.path.join(os.path.dirname(os.path.abspath(__file__)), 'calls.log')
+def _note(s):
+    with open(_log, 'a') as f:
+        f.write(s + '\\n')
+@TaskGenerator
+def part(i, scale=1):
+    _note('part')
+    return i * scale
+@TaskGenerator
+def total(xs, offset=0):
+    _note('total')
+    return sum(xs) + offset
+def build(n, scale=1, offset=0):
+    return total([part(i, scale=scale) for i in range(n)], offset=offset)
+c1 = CompoundTask(build, 3)
+c2 = CompoundTask(build, 3, scale=2)
+c3 = CompoundTask(build, 3, scale=2, offset=5)
+c4 = CompoundTask(build, 3, offset=5, scale=2)
+c5 = CompoundTask(build, n=3)
+@TaskGenerator
+def make_rec(v):
+    _note('make_rec')
+    return Rec(v, str(v))
+def build_rec(n):
+    return make_rec(part(n))
+r = CompoundTask(build_rec, 4)
+# the type of r's value is defined below the line that creates r
+Rec = collections.namedtuple('Rec', 'a b')
+'''
+
+KWPROBE = '''import json, sys
+import jug, jug.task
+from jug.task import value
+store, space = jug.init('jugfile.py', 'jugfile.jugdata')
+names = sorted(t.name.split('.')[-1] for t in jug.task.alltasks)
+vals = {}
+for k in ('c1', 'c2', 'c3', 'c4', 'c5', 'r'):
+    try:
+        vals[k] = repr(value(space[k]))
+    except Exception as e:
+        vals[k] = 'EXC %s' % type(e).__name__
+print('PROBE ' + json.dumps({'names': names, 'values': vals, 'stored': len(list(store.list()))}))
+'''
+
+
+def kwargs_and_late_types_family(run, scratch):
+    """compound tasks called with keyword arguments (the value depends on them; two calls that differ only there are different compounds), and a
+    compound whose value is of a type the jugfile defines further down; real processes: execute, status, reload, execute again"""
+    import subprocess
+    import sys
+    d = os.path.join(scratch, 'kwcompound')
+    os.makedirs(d)
+    open(os.path.join(d, 'jugfile.py'), 'w').write(KWJUGFILE)
+    open(os.path.join(d, 'probe.py'), 'w').write(KWPROBE)
+    rp = {'kind': 'kw-compound'}
+    run.case(('kw-compound',), nontrivial=True)
+    run.count('kw_compound_histories')
+    want = {'c1': '3', 'c2': '6', 'c3': '11', 'c4': '11', 'c5': '3', 'r': "Rec(a=4, b='4')"}
+
+    def probe():
+        env = dict(os.environ, PYTHONPATH=core.REPO + os.pathsep + os.environ.get('PYTHONPATH', ''))
+        o = subprocess.run([sys.executable, 'probe.py'], cwd=d, env=env, stdout=subprocess.PIPE, stderr=subprocess.STDOUT, text=True, timeout=120).stdout
+        line = [ln for ln in o.splitlines() if ln.startswith('PROBE ')]
+        return json.loads(line[-1][6:]) if line else {'names': [], 'values': {'error': o[-300:]}, 'stored': -1}
+
+    def ncalls():
+        try:
+            return len(open(os.path.join(d, 'calls.log')).read().split())
+        except IOError:
+            return 0
+    common = ['--will-cite', '--nr-wait-cycles', '2', '--wait-cycle-time', '0']
+    ex = L.jug_cli(['execute', 'jugfile.py'] + common, d)
+    if ex.returncode != 0:
+        run.fail('kw-compound-execute', 'execute of the jugfile with keyword-argument compounds exits %d: %s' % (ex.returncode, ex.stdout[-400:]), rp)
+        return
+    calls1 = ncalls()
+    p1 = probe()
+    if p1['values'] != want:
+        run.fail('compound-value', 'after execute the compounds have the values %s; their building functions give %s (c2..c5 differ from c1 only in keyword arguments; r is of a type defined below it)' % (p1['values'], want), rp)
+        return
+    inner = [n for n in p1['names'] if n in ('part', 'total', 'make_rec')]
+    if inner:
+        run.fail('inner-after-collapse', 'after a complete execute, loading the jugfile still creates inner tasks %s' % inner, rp)
+    for cmd in (['status', 'jugfile.py', '--will-cite'], ['check', 'jugfile.py', '--will-cite']):
+        L.jug_cli(cmd, d)
+    p2 = probe()
+    if p2 != p1:
+        run.fail('compound-lost-on-reload', 'after `jug status` and `jug check` (which only load the jugfile) a load gives tasks %s, values %s, %d stored results; before: tasks %s, values %s, %d stored results'
+                 % (p2['names'], p2['values'], p2['stored'], p1['names'], p1['values'], p1['stored']), rp)
+    L.jug_cli(['execute', 'jugfile.py'] + common, d)
+    if ncalls() != calls1:
+        run.fail('rerun-executes', 'a second execute after collapse called %d more task functions' % (ncalls() - calls1), rp)
+    core.rm_rf(d)
+
+
 def replay(path):
+    d0 = json.load(open(path))
+    if d0.get('replay', {}).get('kind') == 'kw-compound':
+        print(d0['what'])
+        sc = core.scratch_dir()
+        try:
+            return core.replay_family('C18', d0['key'], lambda run_: kwargs_and_late_types_family(run_, sc))
+        finally:
+            core.rm_rf(sc)
     d = json.load(open(path))
     print(d['what'][:1000])
     print(d['replay'].get('program', ''))
